@@ -99,3 +99,71 @@ Proof.
     with (go_while fuel tr_cond (tr_body pre) (rev (map step_of [(([] : path), t, O)]), map nd (rev []))).
   rewrite (tr_loop pre _ fuel _ _ _ Ht Hf). reflexivity.
 Qed.
+
+(* ---- the tree writer (newick.go, (n *Node) newick(buf)): recursion on explicit fuel ---------- *)
+From Bio.Proofs Require ImpProofsG.
+
+Section Writer.
+Variable o : foracle.
+
+Fixpoint rest_text (l : list tree) : bytes :=
+  match l with [] => [] | c :: r => 44%N :: newick_text o c ++ rest_text r end.
+
+Lemma newick_text_unfold name d cs :
+  newick_text o (Node name d cs)
+  = (match cs with [] => [] | c0 :: cr => 40%N :: newick_text o c0 ++ rest_text cr ++ [41%N] end)
+    ++ name_to_text name ++ (if is_zeroF d then [] else 58%N :: fmtF o d).
+Proof.
+  cbn [newick_text]. destruct cs as [|c0 cr]; [reflexivity|].
+  assert (E : forall l, (fix rest (l : list tree) : bytes :=
+                match l with [] => [] | c :: r => 44%N :: newick_text o c ++ rest r end) l = rest_text l).
+  { induction l as [|c r IH]; [reflexivity|]. cbn [rest_text]. rewrite <- IH. reflexivity. }
+  rewrite E. reflexivity.
+Qed.
+
+Lemma size_child c cs name d : In c cs -> (size c < size (Node name d cs))%nat.
+Proof.
+  intros H. cbn [size]. induction cs as [|x r IH]; [contradiction|].
+  cbn [map list_sum fold_right]. destruct H as [->|H]; [lia|]. specialize (IH H). unfold list_sum in IH. lia.
+Qed.
+
+Definition kids_body (fuel : nat) : Z * imp_newick_Node -> list N -> res (list N) (list N) :=
+  fun p buf => let i := fst p in let c := snd p in
+  (if (Z.ltb (0)%Z i) then let buf := (buf ++ [44%N]) in go_call (imp_newick_Node_newick fuel o c buf) (fun t__1 => let buf := t__1 in Next buf) else go_call (imp_newick_Node_newick fuel o c buf) (fun t__2 => let buf := t__2 in Next buf)).
+
+Lemma kids_rest fuel : forall cs j buf, 1 <= j ->
+  (forall c buf, In c cs -> imp_newick_Node_newick fuel o (node_of c) buf = Ret (buf ++ newick_text o c)) ->
+  go_iter (kids_body fuel) (combine (zseq j (length cs)) (map node_of cs)) buf = Next (buf ++ rest_text cs).
+Proof.
+  induction cs as [|c r IH]; intros j buf Hj Hc.
+  - cbn. rewrite app_nil_r. reflexivity.
+  - cbn [length map]. rewrite zseq_cons. cbn [combine go_iter rest_text].
+    unfold kids_body at 1. cbn [fst snd]. replace (0 <? j) with true by lia. cbv zeta.
+    rewrite (Hc c _ (or_introl eq_refl)). cbn [go_call].
+    rewrite IH by (first [lia | intros c' b' H'; apply Hc; right; exact H']).
+    rewrite <- !app_assoc. reflexivity.
+Qed.
+
+Theorem imp_newick_write : forall fuel t buf, (size t < fuel)%nat ->
+  imp_newick_Node_newick fuel o (node_of t) buf = Ret (buf ++ newick_text o t).
+Proof.
+  induction fuel as [|fuel IH]; intros t buf Hf; [lia|].
+  destruct t as [name d cs]. rewrite newick_text_unfold.
+  cbn [imp_newick_Node_newick node_of imp_newick_Node_Children imp_newick_Node_Name imp_newick_Node_Distance].
+  rewrite ImpProofsG.imp_nameToText. cbn [go_call]. cbv zeta.
+  assert (Hkids : forall c b, In c cs -> imp_newick_Node_newick fuel o (node_of c) b = Ret (b ++ newick_text o c)).
+  { intros c b Hin. apply IH. pose proof (size_child c cs name d Hin). lia. }
+  destruct cs as [|c0 cr].
+  - cbn [map go_len length Z.of_nat Z.ltb Z.compare app].
+    destruct (is_zeroF d); cbn [negb]; rewrite ?app_nil_r, <- ?app_assoc; reflexivity.
+  - replace (0 <? go_len (map node_of (c0 :: cr))) with true by (unfold go_len; cbn [map length]; lia).
+    unfold go_range, indexed. rewrite map_length. cbn [length map]. rewrite zseq_cons. cbn [combine go_iter fst snd].
+    cbn [Z.ltb Z.compare]. rewrite (Hkids c0 _ (or_introl eq_refl)). cbn [go_call].
+    change (go_iter _ (combine (zseq (0 + 1) (length cr)) (map node_of cr)) ?b)
+      with (go_iter (kids_body fuel) (combine (zseq (0 + 1) (length cr)) (map node_of cr)) b).
+    rewrite (kids_rest fuel cr (0 + 1)) by (first [lia | intros c' b' H'; apply Hkids; right; exact H']).
+    cbn [after].
+    destruct (is_zeroF d); cbn [negb]; rewrite ?app_nil_r; repeat (rewrite <- ?app_assoc; cbn [app]); reflexivity.
+Qed.
+
+End Writer.
